@@ -3481,6 +3481,175 @@ def _corr_round5(ctx, M, add, parts):
         parts.run("atomgrid:identity", lambda: _r5_identity(ctx, M))
 
 
+# ----------------------------------------------------------------------------------------------
+# follow-up to round 5 (eighth round of seeded changes): the molecular clause for 1, 2 and 3 atoms with every kind of atom-in-molecule
+# weights the constructor accepts — the Becke callable, arrays that are not identically 1 (radial, signed, above one, zero on all but one
+# atom) and a custom callable
+# ----------------------------------------------------------------------------------------------
+MOLW_SRC = '''
+def molweights(kind, points, centers, indices):
+    """atom-in-molecule weights that are, on the segment of each atom, a function of the distance to that atom's nucleus"""
+    out = np.zeros(len(points))
+    for a in range(len(centers)):
+        s, e = int(indices[a]), int(indices[a + 1])
+        r = np.linalg.norm(np.asarray(points)[s:e] - np.asarray(centers[a], dtype=float), axis=1)
+        if kind in ("radial", "callable"):
+            out[s:e] = 0.25 + np.exp(-0.4 * r * r)
+        elif kind == "signed":
+            out[s:e] = np.cos(1.3 * r + 0.2 * a)
+        elif kind == "above-one":
+            out[s:e] = 1.0 + 0.5 * r * r
+        elif kind == "first-atom-only":
+            out[s:e] = (0.25 + np.exp(-0.4 * r * r)) if a == 0 else 0.0
+        else:
+            raise ValueError(kind)
+    return out
+'''
+exec(MOLW_SRC)
+
+SNIP_MOLW = SNIP_DEFS + MOLW_SRC + """
+from grid.molgrid import MolGrid
+from grid.becke import BeckeWeights
+infos = {infos!r}
+kind = {kind!r}
+bl = {bl!r}
+pts = np.array({pts!r})
+flags = {flags!r}
+centers = [i['center'] for i in infos]
+grids = [build(i) for i in infos]
+idx = np.concatenate([[0], np.cumsum([g.size for g in grids])])
+allp = np.vstack([g.points for g in grids])
+if kind == 'becke':
+    aim = BeckeWeights(order=3)
+elif kind == 'callable':
+    aim = lambda points, atcoords, atnums, indices: molweights('callable', points, atcoords, indices)
+else:
+    aim = molweights(kind, allp, centers, idx)
+mol = MolGrid(np.array({atnums!r}), grids, aim, store=True)
+gfun = make_g(bl)
+def fun(p):          # band-limited about the first nucleus
+    r, az, pol = angles(np.asarray(p, dtype=float) - np.array(centers[0]))
+    return np.einsum('ij,ij->j', gfun(r), real_harmonics(bl['L'], az, pol))
+f = fun(mol.points)
+got = np.asarray(mol.interpolate(f)(pts, *flags), dtype=float)
+fresh = [build(i) for i in infos]
+w = np.asarray(mol.aim_weights, dtype=float)
+want = sum(np.asarray(fresh[a].interpolate((w * f)[idx[a]:idx[a + 1]])(pts, *flags), dtype=float) for a in range(len(fresh)))
+assert got.shape == np.shape(want) and np.all(np.abs(got - want) <= 1e-11 * (1 + np.max(np.abs(want)))), ('not the sum of the atomic interpolants of w_A f', float(np.max(np.abs(got - want))))
+if flags == (0, False, False) and (len(infos) == 1 or kind == 'first-atom-only') and kind != 'becke':
+    g0 = mol.points[:idx[1]]
+    exact = w[:idx[1]] * f[:idx[1]]          # w(r) f is band-limited about the first nucleus: reproduced at its grid points
+    v = np.asarray(mol.interpolate(f)(g0), dtype=float)
+    assert np.all(np.abs(v - exact) <= {tolx!r}), ('interpolant at the grid points of the first atom is not w(r) f', float(np.max(np.abs(v - exact))))
+"""
+
+MOLW_FLAGS = FLAGS + [(1, False, True), (3, False, True)]
+
+
+def _molw_case(ctx, M, nat, kind, infos=None):
+    """the molecular clause on one molecule: values and every derivative report at arbitrary points, at grid points of the molecule and at
+    the nuclei against sum_A atomgrid.interpolate((w_A f)[segment]) on atomic grids that were never part of a molecule; for weights that are
+    radial about the owning nucleus and vanish on the other atoms (always so for one atom) also against the exact w(r) f."""
+    mg, bk = M[4], M[5]
+    rng = ctx.rng
+    if infos is None:
+        infos = []
+        for a in range(nat):
+            c = np.array([1.7 * a + rng.uniform(-0.2, 0.2), rng.uniform(-0.6, 0.6), rng.uniform(-0.6, 0.6)]) + np.array([0.5, -1.25, 2.0])
+            if a == 0:
+                _, info = _agg_grid(ctx, M, method=rng.choice(["lebedev", "spherical", "maxdet"]), center=c, rotate=rng.choice([0, 3, 37]))
+            else:
+                _, info = _atom_grid(ctx, M, n=rng.choice([2, 3]), cap=7, mixed=True, zero_kind="none", center=c, rotate=rng.choice([0, 11]))
+            infos.append(info)
+    nat = len(infos)
+    centers = [i["center"] for i in infos]
+    grids = [_build(M, i) for i in infos]
+    idx = np.concatenate([[0], np.cumsum([g.size for g in grids])]).astype(int)
+    allp = np.vstack([g.points for g in grids])
+    if kind == "becke":
+        aim = bk.BeckeWeights(order=3)
+    elif kind == "callable":
+        aim = lambda points, atcoords, atnums, indices: molweights("callable", points, atcoords, indices)      # noqa: E731
+    else:
+        aim = molweights(kind, allp, centers, idx)
+    atnums = [rng.choice([1, 6, 8]) for _ in range(nat)]
+    mol = mg.MolGrid(np.array(atnums), grids, aim, store=True)
+    w = np.asarray(mol.aim_weights, dtype=float)
+    bl = BandLimited(rng, min(int(min(grids[0].degrees)) // 2, 6), smooth=True)
+    c0 = np.array(centers[0])
+
+    def fun(p):
+        r, az, pol = _angles(np.asarray(p, dtype=float) - c0)
+        return bl.at(r, az, pol)
+    f = fun(mol.points)
+    keep = f.copy()
+    rmax = float(infos[0]["r"][-1])
+    sel = np.unique(np.linspace(0, mol.size - 1, 6).astype(int))
+    pts = np.vstack([c0 + np.array([[rng.uniform(-1, 1) * rmax for _ in range(3)] for _ in range(4)]), mol.points[sel], np.array(centers), [c0 + np.array([0.0, 0.0, 0.4 * rmax])]])
+    ctx.count(["oracle-molw", nat, kind, infos], nontrivial=True, tag=f"oracle:mol-weights:{nat}:{kind}")
+    exact_ok = kind != "becke" and (nat == 1 or kind == "first-atom-only")
+    nrows = (int(max(grids[0].degrees)) // 2 + 1) ** 2
+    tolx = 1e-8 * (float(np.max(np.abs(w[: idx[1]] * f[: idx[1]]))) + 1e-300) * (1 + nrows)
+
+    def snip(fl):
+        return SNIP_MOLW.format(infos=infos, kind=kind, bl=bl.to_json(), pts=pts.tolist(), flags=tuple(fl), atnums=atnums, tolx=tolx)
+    for fl in MOLW_FLAGS:
+        try:
+            got = np.asarray(mol.interpolate(f)(pts, *fl), dtype=float)
+        except Exception as e:  # noqa: BLE001
+            ctx.fail("oracle", "molgrid.interpolate:raises", f"{nat} atom(s), aim weights {kind}: MolGrid.interpolate(f)(points, {fl[0]}, {fl[1]}, {fl[2]}) raised {type(e).__name__}: {e}",
+                     witness=dict(infos=infos, kind=kind, points=pts), snippet=snip(fl))
+            continue
+        fresh = [_build(M, i) for i in infos]
+        want = sum(np.asarray(fresh[a].interpolate((w * keep)[idx[a]:idx[a + 1]])(pts, *fl), dtype=float) for a in range(nat))
+        if got.shape != np.shape(want) or not np.all(np.abs(got - want) <= 1e-11 * (1 + float(np.max(np.abs(want))))):
+            dev = float(np.max(np.abs(got - want))) if got.shape == np.shape(want) else None
+            ctx.fail("oracle", "molgrid.interpolate:sum-of-atomic", f"{nat} atom(s), aim weights '{kind}' (min {float(np.min(w))!r}, max {float(np.max(w))!r}): MolGrid.interpolate(f)(points, deriv={fl[0]}, deriv_spherical={fl[1]}, "
+                     f"only_radial_derivs={fl[2]}) is not the sum over the atoms of atomgrid.interpolate((w_A f)[segment]) (max deviation {dev!r})",
+                     witness=dict(infos=infos, kind=kind, atnums=atnums, function=bl.to_json(), points=pts, flags=list(fl)), snippet=snip(fl))
+    if exact_ok:
+        g0 = mol.points[: idx[1]]
+        exact = w[: idx[1]] * keep[: idx[1]]
+        v = np.asarray(mol.interpolate(f)(g0), dtype=float)
+        if v.shape != exact.shape or not np.all(np.abs(v - exact) <= tolx):
+            j = int(np.argmax(np.abs(v - exact))) if v.shape == exact.shape else 0
+            ctx.fail("oracle", "molgrid.interpolate:exact", f"{nat} atom(s), aim weights '{kind}' radial about the first nucleus: f band-limited about it, so w(r) f is; the molecular interpolant at grid point {j} of the "
+                     f"first atom = {v.reshape(-1)[j]!r}, w(r) f = {exact[j]!r} (f = {keep[j]!r}, w = {w[j]!r})", witness=dict(infos=infos, kind=kind, atnums=atnums, function=bl.to_json()),
+                     snippet=snip((0, False, False)))
+        # on the spheres of the first atom's shells, away from its grid points
+        i = rng.randrange(grids[0].n_shells)
+        ri = float(grids[0].rgrid.points[i])
+        d = ctx.np_rng.normal(size=(4, 3))
+        d /= np.linalg.norm(d, axis=1)[:, None]
+        P = c0 + ri * d
+        wv = molweights(kind if kind != "callable" else "radial", P, [centers[0]], [0, len(P)])
+        v = np.asarray(mol.interpolate(f)(P), dtype=float)
+        if not np.all(np.abs(v - wv * fun(P)) <= tolx):
+            ctx.fail("oracle", "molgrid.interpolate:exact", f"{nat} atom(s), aim weights '{kind}': on the sphere of shell {i} of the first atom (r = {ri!r}) the molecular interpolant {v.tolist()} is not "
+                     f"w(r) f = {(wv * fun(P)).tolist()}", witness=dict(infos=infos, kind=kind, atnums=atnums, function=bl.to_json(), points=P))
+    if not _same(f, keep):
+        ctx.fail("oracle", "molgrid.interpolate:modifies-input", "MolGrid.interpolate changed the function values handed in", witness=dict(infos=infos, kind=kind))
+
+
+def _oracle_mol_weights(ctx, M, budget):
+    rng = ctx.rng
+    big = budget == "large" or ctx.thorough
+    kinds = ["radial", "signed", "above-one", "callable", "becke", "first-atom-only"]
+    # in every run: one atom with each kind that is not identically 1 there; two and three atoms with a rotating choice
+    plan = [(1, "radial"), (1, "signed"), (1, "above-one"), (1, "callable"), (2, "becke"), (2, rng.choice(["radial", "signed", "first-atom-only"])),
+            (3, rng.choice(["callable", "above-one", "first-atom-only"]))]
+    if big:
+        plan += [(n, k) for n in (1, 2, 3) for k in kinds if (n, k) not in plan]
+    for nat, kind in plan:
+        try:
+            _molw_case(ctx, M, nat, kind)
+        except Exception as e:  # noqa: BLE001
+            if not _lib_raised(e, M):
+                raise
+            import traceback
+            ctx.fail("oracle", "molgrid.interpolate:raises", f"{nat} atom(s), aim weights {kind}: the library raised {type(e).__name__}: {e}", witness=dict(traceback=traceback.format_exc()[-1200:]))
+
+
 def oracle(ctx: Ctx, budget: str):
     M = _mods()
     rng = ctx.rng
@@ -3593,7 +3762,8 @@ def oracle(ctx: Ctx, budget: str):
                      ("atomgrid.interpolate:object-kinds", _oracle_object_kinds), ("atomgrid.interpolate:value-kinds", _oracle_complex),
                      ("atomgrid.interpolate:real-rgrid", _oracle_real_rgrids), ("molgrid.interpolate:extreme", _oracle_mol_extreme),
                      # round 5
-                     ("atomgrid.interpolate:blocks", _oracle_blocks), ("atomgrid.interpolate:orders", _oracle_orders)]:
+                     ("atomgrid.interpolate:blocks", _oracle_blocks), ("atomgrid.interpolate:orders", _oracle_orders),
+                     ("molgrid.interpolate:aim-weights", _oracle_mol_weights)]:
         parts.run(name, lambda fn=fn: fn(ctx, M, budget))
     parts.finish()
 
@@ -3670,6 +3840,8 @@ def oracle_at(ctx: Ctx, failure):
     if failure.key.startswith("molgrid"):
         grids = [_build(M, i) for i in infos]
         try:
+            _molw_case(ctx, M, len(infos), "radial", infos=[dict(i) for i in infos])
+            _molw_case(ctx, M, len(infos), "callable", infos=[dict(i) for i in infos])
             _mol_case(ctx, M, grids, infos, [1] * len(grids))
         except Exception as e:  # noqa: BLE001
             ctx.fail("oracle", "molgrid.interpolate:raises", f"MolGrid.interpolate of a smooth molecular function raised {type(e).__name__}: {e}", witness=dict(infos=infos))
